@@ -3,17 +3,21 @@
 use std::env;
 
 fn tokens_exit() {
-    // every small entry state of do_force_return_tokens
+    // every small entry state of do_force_return_tokens; `own`: the server made its cheat pipe itself (nobody above reads it).
+    // The token pipe is pre-filled with 4 tokens so that a process that takes tokens out of it does not wait.
+    const PRE: usize = 4;
     for top_level in [0, 2] {
-        for my_tokens in 0..=2 {
-            for cheats in 0..=2 {
-                for n in 0..=2usize {
-                    let (ok, mt, ch, tok, cheat) =
-                        redo::verif::jobserver::force_return_tokens_probe(my_tokens, cheats, n, top_level);
-                    println!(
-                        "{{\"probe\":\"tokens-exit\",\"top_level\":{},\"my_tokens\":{},\"cheats\":{},\"children\":{},\"ok\":{},\"my_tokens_after\":{},\"cheats_after\":{},\"token_bytes\":{},\"cheat_bytes\":{}}}",
-                        top_level, my_tokens, cheats, n, ok, mt, ch, tok, cheat
-                    );
+        for own in [false, true] {
+            for my_tokens in 0..=2 {
+                for cheats in 0..=2 {
+                    for n in 0..=2usize {
+                        let (ok, mt, ch, tok, cheat) =
+                            redo::verif::jobserver::force_return_tokens_probe_ext(my_tokens, cheats, n, top_level, own, PRE);
+                        println!(
+                            "{{\"probe\":\"tokens-exit\",\"top_level\":{},\"own_cheat_pipe\":{},\"my_tokens\":{},\"cheats\":{},\"children\":{},\"ok\":{},\"my_tokens_after\":{},\"cheats_after\":{},\"token_bytes\":{},\"cheat_bytes\":{}}}",
+                            top_level, own, my_tokens, cheats, n, ok, mt, ch, tok as i64 - PRE as i64, cheat
+                        );
+                    }
                 }
             }
         }
